@@ -46,7 +46,7 @@ def expected_body(n, bounds, vals, init, nlev):
 
 def build(tier, seed):
     quick = tier == "quick"
-    T = 90 if quick else 600
+    T = 240 if quick else 600
     obs = []
     # O1: heading values come from the page's first row, dividers dropped, level order kept
     for levels in ((1, 2) if quick else (1, 2, 3)):
